@@ -945,4 +945,258 @@ theorem applyWrites_links (g : Graph) (rows : List Nat) : ∀ (l : List (Nat × 
     simp [applyWrites, applyWrite, hp.1, hp.2]
     exact ih (fun q hq => h q (by simp [hq]))
 
+/-! ### the queue with its slots refines to `saveQueue` -/
+
+/-- slot `j` of the queue holds object `x` -/
+def Holds (q : List (Option Nat)) (j x : Nat) : Prop := q[j]? = some (some x)
+
+/-- slots and `_save_pos_` agree -/
+structure PosInv (qs : Slots) : Prop where
+  slot_of_pos : ∀ x p, posOf qs.pos x = some p → Holds qs.queue p x
+  pos_of_slot : ∀ j x, Holds qs.queue j x → posOf qs.pos x = some j
+
+theorem posOf_set (pos : List (Option Nat)) (x y : Nat) (v : Option Nat) :
+    posOf (pos.set x v) y = if x = y ∧ x < pos.length then v else posOf pos y := by
+  unfold posOf
+  rw [List.getElem?_set]
+  by_cases h : x = y
+  · subst h
+    by_cases h2 : x < pos.length
+    · simp [h2]
+    · simp [h2]
+  · simp [h]
+
+theorem posOf_lt {pos : List (Option Nat)} {x p : Nat} (h : posOf pos x = some p) : x < pos.length := by
+  unfold posOf at h
+  by_cases hx : x < pos.length
+  · exact hx
+  · rw [List.getElem?_eq_none (Nat.le_of_not_lt hx)] at h; simp at h
+
+theorem Holds.lt {q : List (Option Nat)} {j x : Nat} (h : Holds q j x) : j < q.length := by
+  unfold Holds at h
+  by_cases hj : j < q.length
+  · exact hj
+  · rw [List.getElem?_eq_none (Nat.le_of_not_lt hj)] at h; simp at h
+
+theorem holds_clearAt (q : List (Option Nat)) (p : Nat) (hp : p < q.length) (j x : Nat) :
+    Holds (if p + 1 = q.length then q.dropLast else q.set p none) j x ↔ Holds q j x ∧ j ≠ p := by
+  by_cases hl : p + 1 = q.length
+  · simp only [hl, if_true]
+    unfold Holds
+    rw [List.getElem?_dropLast]
+    constructor
+    · intro h
+      by_cases hj : j < q.length - 1
+      · simp only [hj, if_true] at h; exact ⟨h, by omega⟩
+      · simp [hj] at h
+    · rintro ⟨h, hne⟩
+      have : j < q.length := Holds.lt h
+      have hj : j < q.length - 1 := by omega
+      simp only [hj, if_true]; exact h
+  · simp only [hl, if_false]
+    unfold Holds
+    rw [List.getElem?_set]
+    by_cases hpj : p = j
+    · subst hpj; simp [hp]
+    · simp only [hpj, if_false]
+      constructor
+      · intro h; exact ⟨h, fun e => hpj e.symm⟩
+      · intro h; exact h.1
+
+theorem clearSlot_spec {qs : Slots} (I : PosInv qs) (y : Nat) :
+    PosInv (clearSlot qs y) ∧ (∀ j x, Holds (clearSlot qs y).queue j x ↔ Holds qs.queue j x ∧ x ≠ y)
+      ∧ (clearSlot qs y).queue.length ≤ qs.queue.length := by
+  unfold clearSlot
+  cases hpos : posOf qs.pos y with
+  | none =>
+    refine ⟨I, ?_, Nat.le_refl _⟩
+    intro j x
+    constructor
+    · intro h
+      refine ⟨h, ?_⟩
+      intro e; subst e
+      rw [I.pos_of_slot j x h] at hpos; simp at hpos
+    · intro h; exact h.1
+  | some p =>
+    have hhold : Holds qs.queue p y := I.slot_of_pos y p hpos
+    have hp : p < qs.queue.length := hhold.lt
+    have hy : y < qs.pos.length := posOf_lt hpos
+    have key : ∀ j x, Holds (if p + 1 = qs.queue.length then qs.queue.dropLast else qs.queue.set p none) j x
+        ↔ Holds qs.queue j x ∧ x ≠ y := by
+      intro j x
+      rw [holds_clearAt _ _ hp]
+      constructor
+      · rintro ⟨h, hne⟩
+        refine ⟨h, ?_⟩
+        intro e; subst e
+        have := I.pos_of_slot j x h
+        rw [hpos] at this; simp at this; exact hne this.symm
+      · rintro ⟨h, hne⟩
+        refine ⟨h, ?_⟩
+        intro e; subst e
+        unfold Holds at h hhold
+        rw [h] at hhold; simp at hhold; exact hne hhold
+    refine ⟨⟨?_, ?_⟩, key, ?_⟩
+    · intro x p' hx
+      simp only [posOf_set] at hx
+      by_cases hyx : y = x
+      · simp [hyx ▸ hy, hyx] at hx
+      · simp only [hyx, false_and, if_false] at hx
+        exact (key p' x).mpr ⟨I.slot_of_pos x p' hx, fun e => hyx e.symm⟩
+    · intro j x h
+      obtain ⟨h1, hne⟩ := (key j x).mp h
+      simp only [posOf_set]
+      have : ¬ (y = x ∧ y < qs.pos.length) := fun e => hne e.1.symm
+      simp only [this, if_false]
+      exact I.pos_of_slot j x h1
+    · simp only
+      split
+      · simp [List.length_dropLast]
+      · simp
+
+theorem clearAll_spec : ∀ (W : List Nat) {qs : Slots}, PosInv qs →
+    PosInv (W.foldl clearSlot qs) ∧ (∀ j x, Holds (W.foldl clearSlot qs).queue j x ↔ Holds qs.queue j x ∧ x ∉ W)
+      ∧ (W.foldl clearSlot qs).queue.length ≤ qs.queue.length := by
+  intro W
+  induction W with
+  | nil => intro qs I; exact ⟨I, by simp, Nat.le_refl _⟩
+  | cons y W ih =>
+    intro qs I
+    obtain ⟨I1, h1, l1⟩ := clearSlot_spec I y
+    obtain ⟨I2, h2, l2⟩ := ih I1
+    simp only [List.foldl_cons]
+    refine ⟨I2, ?_, Nat.le_trans l2 l1⟩
+    intro j x
+    rw [h2, h1]
+    simp only [List.mem_cons, not_or]
+    constructor
+    · rintro ⟨⟨a, b⟩, c⟩; exact ⟨a, b, c⟩
+    · rintro ⟨a, b, c⟩; exact ⟨⟨a, b⟩, c⟩
+
+/-- everything left in the list is a hole or already written: the loop does nothing -/
+theorem saveQueue_skip (g : Graph) (fuel : Nat) : ∀ (l : List (Option Nat)) (s : St),
+    (∀ x, some x ∈ l → written s x = true) → saveQueue g fuel l s = .ok s := by
+  intro l
+  induction l with
+  | nil => intro s _; rfl
+  | cons o l ih =>
+    intro s h
+    cases o with
+    | none => simp only [saveQueue]; exact ih s (fun x hx => h x (by simp [hx]))
+    | some x =>
+      simp only [saveQueue, h x (by simp), if_true]
+      exact ih s (fun y hy => h y (by simp [hy]))
+
+/-- the state of the slot loop at index `i`, relative to the queue `q0` the flush started with -/
+structure SlotRel (q0 : List (Option Nat)) (i : Nat) (r : St × Slots) : Prop where
+  inv : PosInv r.2
+  len : r.2.queue.length ≤ q0.length
+  slots : ∀ j x, i ≤ j → (Holds r.2.queue j x ↔ (Holds q0 j x ∧ written r.1 x = false))
+
+theorem loopS_refines (g : Graph) (fuel : Nat) (q0 : List (Option Nat)) : ∀ (n i : Nat) (r : St × Slots),
+    SlotRel q0 i r → n + i ≥ r.2.queue.length →
+    (loopS g fuel n i r).map Prod.fst = saveQueue g fuel (q0.drop i) r.1 := by
+  intro n
+  -- when the index is beyond the current length, the rest of q0 is holes and written objects
+  have done : ∀ (i : Nat) (r : St × Slots), SlotRel q0 i r → i ≥ r.2.queue.length →
+      saveQueue g fuel (q0.drop i) r.1 = .ok r.1 := by
+    intro i r R hi
+    apply saveQueue_skip
+    intro x hx
+    obtain ⟨k, hk⟩ := List.getElem?_of_mem hx
+    rw [List.getElem?_drop] at hk
+    cases hw : written r.1 x with
+    | true => rfl
+    | false =>
+      have := ((R.slots (i + k) x (by omega)).mpr ⟨hk, hw⟩).lt
+      omega
+  induction n with
+  | zero =>
+    intro i r R hn
+    simp only [loopS, Except.map]
+    rw [done i r R (by omega)]
+  | succ n ih =>
+    intro i r R hn
+    simp only [loopS]
+    by_cases hi : i < r.2.queue.length
+    · simp only [hi, if_true]
+      have hi0 : i < q0.length := Nat.lt_of_lt_of_le hi R.len
+      rw [List.drop_eq_getElem_cons hi0]
+      -- what the abstract loop sees in slot i
+      have hq0 : q0[i]? = some q0[i] := List.getElem?_eq_getElem hi0
+      cases hslot : r.2.queue[i]? with
+      | none =>
+        rw [List.getElem?_eq_getElem hi] at hslot; simp at hslot
+      | some o =>
+        cases o with
+        | some x =>
+          simp only
+          obtain ⟨hx0, hxw⟩ := (R.slots i x (Nat.le_refl _)).mp hslot
+          have hqi : q0[i] = some x := by
+            unfold Holds at hx0; rw [hq0] at hx0; simpa using hx0
+          rw [hqi]
+          simp only [saveQueue, hxw, saveTopS]
+          cases hr : save g fuel x none r.1 with
+          | error e => simp [Except.map]
+          | ok p =>
+            obtain ⟨s', d'⟩ := p
+            simp only [Bool.false_eq_true, if_false]
+            have P := save_spec g _ _ _ _ _ _ hr
+            obtain ⟨ws, T⟩ := P.steps.trace
+            have hnew : newObjs r.1 s' = ws.filterMap Write.obj? := by
+              unfold newObjs; rw [T.out_eq, List.drop_left]
+            obtain ⟨I2, h2, l2⟩ := clearAll_spec (newObjs r.1 s') R.inv
+            have hwr : ∀ y, written s' y = true ↔ (written r.1 y = true ∨ y ∈ newObjs r.1 s') := by
+              intro y
+              rw [written_iff, written_iff, T.out_eq, hnew]
+              simp only [List.mem_append, List.mem_filterMap]
+              constructor
+              · rintro ⟨w, hw | hw, hy⟩
+                · exact Or.inl ⟨w, hw, hy⟩
+                · exact Or.inr ⟨w, hw, hy⟩
+              · rintro (⟨w, hw, hy⟩ | ⟨w, hw, hy⟩)
+                · exact ⟨w, Or.inl hw, hy⟩
+                · exact ⟨w, Or.inr hw, hy⟩
+            apply ih (i + 1) (s', (newObjs r.1 s').foldl clearSlot r.2)
+            · refine ⟨I2, Nat.le_trans l2 R.len, ?_⟩
+              intro j y hj
+              simp only
+              rw [h2, R.slots j y (by omega)]
+              constructor
+              · rintro ⟨⟨a, b⟩, c⟩
+                refine ⟨a, ?_⟩
+                cases hw' : written s' y with
+                | false => rfl
+                | true =>
+                  rcases (hwr y).mp hw' with h | h
+                  · rw [h] at b; simp at b
+                  · exact absurd h c
+              · rintro ⟨a, b⟩
+                refine ⟨⟨a, ?_⟩, ?_⟩
+                · cases hw' : written r.1 y with
+                  | false => rfl
+                  | true => rw [(hwr y).mpr (Or.inl hw')] at b; simp at b
+                · intro h; rw [(hwr y).mpr (Or.inr h)] at b; simp at b
+            · simp only; omega
+        | none =>
+          simp only
+          -- q0[i] is a hole or an object written meanwhile: the abstract loop skips it too
+          have hskip : saveQueue g fuel (q0[i] :: q0.drop (i + 1)) r.1 = saveQueue g fuel (q0.drop (i + 1)) r.1 := by
+            cases hq : q0[i] with
+            | none => simp only [saveQueue]
+            | some x =>
+              have hw : written r.1 x = true := by
+                cases hw : written r.1 x with
+                | true => rfl
+                | false =>
+                  have := (R.slots i x (Nat.le_refl _)).mpr ⟨by unfold Holds; rw [hq0, hq], hw⟩
+                  unfold Holds at this; rw [hslot] at this; simp at this
+              simp only [saveQueue, hw, if_true]
+          rw [hskip]
+          apply ih (i + 1) r
+          · exact ⟨R.inv, R.len, fun j y hj => R.slots j y (by omega)⟩
+          · omega
+    · simp only [hi, if_false, Except.map]
+      rw [done i r R (by omega)]
+
 end PonyVerif.Model.SaveOrder
